@@ -2878,7 +2878,8 @@ def allclose_units(actual, desired, rtol=1e-7, atol=0, **kwargs):
     # to avoid spurious errors
     act = act.value
     des = des.value
-    rt = rt.value
+    # a dimensionless unit may carry a scale (percent)
+    rt = rt.value * rt.units.base_value
     at = at.value
 
     return np.allclose(act, des, rt, at, **kwargs)
